@@ -215,18 +215,26 @@ impl AST {
                         ops.push(Op::Equal, def.pos);
                     }
                     BinaryExprType::AND => {
+                        let right_pos = def.right.pos().clone();
                         Self::translate_expr(*def.left, ops, root);
                         ops.push(Op::Noop, def.pos);
                         let idx = ops.len() - 1;
                         Self::translate_expr(*def.right, ops, root);
+                        // The right operand must be a boolean too: `right && true`.
+                        ops.push(Op::And(1), right_pos.clone());
+                        ops.push(Op::Val(Primitive::Bool(true)), right_pos);
                         let jptr = (ops.len() - 1 - idx) as i32;
                         ops.replace(idx, Op::And(jptr));
                     }
                     BinaryExprType::OR => {
+                        let right_pos = def.right.pos().clone();
                         Self::translate_expr(*def.left, ops, root);
                         ops.push(Op::Noop, def.pos); // Placeholder
                         let idx = ops.len() - 1;
                         Self::translate_expr(*def.right, ops, root);
+                        // The right operand must be a boolean too: `right || false`.
+                        ops.push(Op::Or(1), right_pos.clone());
+                        ops.push(Op::Val(Primitive::Bool(false)), right_pos);
                         let jptr = (ops.len() - 1 - idx) as i32;
                         ops.replace(idx, Op::Or(jptr));
                     }
